@@ -48,7 +48,8 @@ PROBES = {'C16': ['several_crossing_in_one_update', 'crossing_and_returning', 'w
                   'inactive_stage', 'empty_fluid', 'ghost_inlet', 'props_to_copy_subset', 'fluid_backflow_into_inlet_zone',
                   'outlet_particle_deleted', 'inlet_recycled', 'ghost_outlet', 'inlet_particle_beyond_upstream_end',
                   'zone_name_contains_other_zone_name', 'manager_used_before_with_other_zone_lengths', 'default_update_classes',
-                  'more_inlets_than_outlets', 'array_drained_to_empty']}
+                  'more_inlets_than_outlets', 'array_drained_to_empty', 'lb_props_recorded_before_io_properties',
+                  'ghost_tagged_particles_in_the_fluid']}
 
 
 # array names: the default ones, and sets in which one zone's name is a suffix / prefix of another's (zone bookkeeping is keyed by name)
@@ -113,6 +114,8 @@ def gen(t, prop, tier):
         sc['extra_inlet'] = t.choice([1, 2, 3])
     if not (sc['out_ghost'] and fam == 'mirror') and t.bool(0.25):
         sc['default_cls'] = t.choice([1, 2])
+    sc['early_lb_props'] = int(t.bool(0.25))
+    sc['bystanders'] = t.choice([1, 2, 3]) if (dim > 1 and t.bool(0.2)) else 0
     return sc
 
 
@@ -211,6 +214,11 @@ def execute(sc, prop):
     inlet, tin = make(names[0], [-(k + 0.5) * dx for k in range(n_in)])
     fluid, tfl = make(names[1], [] if sc.get('fluid_empty') else [(k + 0.5) * dx for k in range(n_fluid)])
     outlet, tou = make(names[2], [(n_fluid + k + 0.5) * dx for k in range(n_out)])
+    if sc.get('early_lb_props'):
+        # the load-balancing property list was recorded when the arrays were created (it has nothing to do with inlets)
+        for pa_ in (inlet, fluid, outlet):
+            pa_.set_lb_props(list(pa_.properties.keys()))
+        probe('lb_props_recorded_before_io_properties')
     ptc = sc.get('props_to_copy')
     if ptc is not None:
         if not (isinstance(ptc, list) and all(isinstance(p, str) for p in ptc) and {'x', 'y', 'z', 'token'} <= set(ptc)):
@@ -319,6 +327,19 @@ def execute(sc, prop):
         if getattr(io_, 'ghost_pa', None) is not want_:
             violate('foreign-ghost-array', 'the updater of the %s zone was given the ghost array %r, expected %r' % (
                 nm_, getattr(getattr(io_, 'ghost_pa', None), 'name', None), getattr(want_, 'name', None)))
+    nby = int(sc.get('bystanders') or 0)
+    if nby and dim > 1 and not sc.get('fluid_empty'):
+        # ghost-tagged copies in the fluid array (what a periodic domain manager appends), lying past the outlet plane outside
+        # the channel: they belong to nobody's zone and must never be moved or deleted
+        if not 1 <= nby <= 4:
+            raise InvalidScenario('bystanders')
+        bp = np.array([origin + (n_fluid + 0.3 + 0.5 * k) * dx * d + (rows + 2.0) * dx * lat for k in range(nby)])
+        btok = np.arange(tok[0], tok[0] + nby, dtype=float)
+        tok[0] += nby
+        fluid.add_particles(x=bp[:, 0], y=bp[:, 1], z=bp[:, 2], h=np.ones(nby) * dx * 1.2, m=np.ones(nby) * dx ** dim, rho=np.ones(nby),
+                            u=np.ones(nby) * d[0], v=np.ones(nby) * d[1], w=np.ones(nby) * d[2], tag=np.ones(nby, dtype=np.int32) * 2,
+                            token=btok, sv=np.repeat(btok, 3) + np.tile([0.0, 0.25, 0.5], nby))
+        probe('ghost_tagged_particles_in_the_fluid')
     n_fluid0 = fluid.get_number_of_particles()
     entered = left = deleted_total = 0
     pattern = []
@@ -427,6 +448,8 @@ def execute(sc, prop):
         # fluid -> outlet
         must_leave, may_leave = [], []
         for r in b_fl:
+            if int(r['tag'][0]) != 0:
+                continue        # not a real fluid particle: stays where it is
             dd = dist(r, ref_out, d)
             if dd > THR + BAND:
                 must_leave.append(r)
@@ -453,7 +476,7 @@ def execute(sc, prop):
             probe('empty_fluid')
         for r in b_fl:
             tk = int(r['token'][0])
-            if dist(r, ref_out, d) > THR:
+            if dist(r, ref_out, d) > THR and int(r['tag'][0]) == 0:
                 was_past_outlet.add(tk)
         fl_before = {int(r['token'][0]): r for r in b_fl}
         fl_after = {}
